@@ -19,7 +19,7 @@ connection epochs):
 * `reconnect`    — `replaceConn`: a new epoch, `connChanged` closed;
 * `retOk r` / `retErr r` — `Invoke` returns;
 * `sendFail r`   — the send on the dying connection fails with a transport error that is returned to the
-                   caller (exists only while `Cfg.sendErrorSurfaces`, see the finding in notes/C29.md);
+                   caller (exists only while `Cfg.sendErrorSurfaces` — the pre-fix behaviour, see notes/C29.md);
 * `close`        — the client is closed.
 Core Lean only (linked into `drv_c29`).
 -/
@@ -35,7 +35,8 @@ structure Cfg where
   ackedNotRetryable : Bool
   /-- `invokeConn` leaves its wait when the client context is done -/
   closeUnblocks : Bool
-  /-- a failed transport send is returned to the caller as a plain error (not retried) -/
+  /-- a failed transport send is returned to the caller as a plain error (not retried): the rpc engine
+  returns it plainly and `manager.Conn.Invoke` does not map it to `pool.ErrConnDead` -/
   sendErrorSurfaces : Bool
   deriving Repr, DecidableEq
 
@@ -44,7 +45,7 @@ def cfgOfSource : Cfg :=
       Facts.C29.forceCloseCause && Facts.C29.waitsConnChanged && Facts.C29.replaceConnSignals
     ackedNotRetryable := Facts.C29.ackedCloseReportsCtxErr
     closeUnblocks := Facts.C29.waitsClientDone
-    sendErrorSurfaces := Facts.C29.sendErrorPlain }
+    sendErrorSurfaces := Facts.C29.sendErrorPlain && !Facts.C29.sendErrorMapped }
 
 inductive Phase
   | idle | waitConn | sent (k : Nat) | acked (k : Nat) | doneOk | doneErr
